@@ -196,6 +196,15 @@ COMMA_URI_DOCS = [
 ]
 
 
+# prefixes that LOOK like lxml's automatic ones but are not (`ns`, `ns1x`, `xns0`): the right root declares them, an
+# inserted element uses them and a later action addresses that element again by its prefixed path
+PREFIX_DOCS = [
+    ('<r><k/></r>', '<r xmlns:%s="urn:n"><k/><%s:a><%s:b>t</%s:b></%s:a></r>' % ((p_,) * 5)) for p_ in ("ns", "nsx", "xns0", "n", "NS1")
+] + [
+    ('<r xmlns:ns="urn:n"><ns:a/></r>', '<r xmlns:ns="urn:n"><ns:a><ns:b ns:k="1"/></ns:a><ns:c/></r>'),
+]
+
+
 def comma_uri_key(l, r, why):
     """finding key for the known class: some namespace URI of the documents holds a comma AND the failure is the parser
     counting the fields of a line wrongly (anything else on such documents is reported)"""
@@ -351,6 +360,10 @@ def main(run):
     from lxml import etree as _et
     for l_, r_ in ENTITY_DOCS:
         w = oracle_pipeline_text(l_, r_)
+        if w:
+            viols.append({"what": w, "replay": {"kind": "pipeline-text", "left": l_, "right": r_}})
+    for l_, r_ in PREFIX_DOCS:
+        w = oracle_pipeline_text(l_, r_, "documents whose right root declares a prefix of its own")
         if w:
             viols.append({"what": w, "replay": {"kind": "pipeline-text", "left": l_, "right": r_}})
     for l_, r_ in COMMA_URI_DOCS:
